@@ -88,10 +88,13 @@ CLAIMED = {
          "prelude): every end-to-end header keeps all its values in order (end_to_end_headers_unaltered), method, path, query "
          "unaltered and the Host rule (request_line_unaltered). (3) End to end through the real stack over both protocols with "
          "bodies up to 5 MiB in arbitrary pieces, trailers and concurrent requests: ORACLE = the pass-through specification. "
+         "(4) The response-body path inside the HTTP/2 server as one statement (C08_Body.lean): however a body is cut into DATA "
+         "frames within the frame-size limit, the octets the framer writes, read back frame by frame, give exactly the body, with "
+         "END_STREAM on the last frame only and the rest of the connection untouched (body_over_frames, body_any_cuts). "
          "dataBuffer/pipe models are tied to the code by an exact differential incl. the chunk structure"),
    note=("PARTIAL: net/http, httputil.ReverseProxy and the transports are standard-library code (contracts modelled and exercised); "
-         "the response path inside the HTTP/2 server is covered piecewise by C20 (pieces_concatenate), C19 (frame round trip) and the "
-         "end-to-end oracle, not by one theorem. Found and fixed D18 (query re-encoded). Trusted: Lean kernel + standard axioms; harness"),
+         "the response path inside the HTTP/2 server: cutting (C20 Consume theorems) and framing + read-back (body_over_frames) are "
+         "theorems, responseWriter's header / Content-Length / trailer logic is decided by the end-to-end oracle. Found and fixed D18 (query re-encoded). Trusted: Lean kernel + standard axioms; harness"),
    technique="Lean 4 refinement proof (FIFO) + header-rewrite theorems + end-to-end differential with identity oracle",
    design='7/C08'),
  'C09': dict(
@@ -269,9 +272,17 @@ CLAIMED = {
          "differentials; for the priority scheduler the whole final structure incl. sibling order is compared. The scheduler-"
          "independent TRACE specification that judges the real schedulers' answers (oracle `schedtrace`) is proved to accept every "
          "run of the round-robin model and to track its state (trace_accepts_rr, trace_tracks_rr in C20_Trace.lean): the oracle is "
-         "no stricter than the proved scheduler"),
-   note=("PARTIAL: conservation / window theorems are proved for round robin (and per-step for Consume); for the priority scheduler "
-         "they are decided by the differential, the tree clause by theorem. sort.Sort is modelled as insertion sort (<= 12 siblings). "
+         "no stricter than the proved scheduler. Random scheduler (C20_Random.lean): for every operation sequence and EVERY choice "
+         "Go's map iteration can make at each Pop — conservation (conservation_random), windows (respects_windows_random), "
+         "per-stream FIFO (fifo_random), a ready stream reached by the iteration is popped and 'nothing' means the reached stream "
+         "was not ready (ready_choice_pops, pop_none_random), no panic (random_never_panics). Priority scheduler's Pop "
+         "(C20_PrioWin.lean), for every tree, comparator and throttle state: what is handed out is the oldest frame of some "
+         "node's queue, whole or cut, within the stream window, connection window and max frame size as they stood at the call "
+         "(prio_pop_fifo_within_windows, via walk_spec over walkReadyInOrder), a Pop reporting nothing touched no queue, window "
+         "or throttle limit (prio_pop_none_keeps), control frames first (control_first_prio)"),
+   note=("PARTIAL: conservation over whole operation sequences is proved for round robin and random; for the priority scheduler "
+         "per-Pop FIFO / windows / control-first and the tree clause are theorems, conservation over sequences and 'nothing only when "
+         "nothing is sendable' are decided by the trace oracle on the differential. sort.Sort is modelled as insertion sort (<= 12 siblings). "
          "Found and fixed D7. Trusted: Lean kernel + standard axioms; harness"),
    technique="Lean 4 invariant proofs over operation sequences (ring conservation, priority-tree invariant) + exact differentials through package-internal access",
    design='7/C20'),
